@@ -9,7 +9,12 @@ RULE = ("call lists derived from abstract documents (props/docgen.py) with every
         "magnitude, bool, Date/DateHour/UniformDate, rgb, headers), write_binary forwarding of every BinaryToken kind, arbitrary byte "
         "payloads for write_quoted (all 256 byte values, trailing backslash/newline/quote), and arbitrary ill-formed call lists over the "
         "whole call alphabet; indent_char in {space, tab} x factor 0..9 (plus exotic ones for model/implementation comparison); release "
-        "and debug profiles. non-trivial = at least one container or operator or escape was written")
+        "and debug profiles. non-trivial = at least one container or operator or escape was written. "
+        "Wave 4 (props/C15_extra.py): at_unknown_start()/at_array_value() against a reference derived from the document; floats over the "
+        "whole domain Scalar::to_f64 reads back (zero, -0, 1e-5 <= |x| < 2^53; f32 from 1e-13), write_f32/f64_precision (0..12 places), "
+        "non-finite and huge/tiny values (structure only); bool / Date / DateHour / UniformDate / iso_8601 / unknown-token read-back; "
+        "3..8 write_quoted calls per writer alternating escape / no escape; arbitrary sessions mixing calls, write_tape in any state and "
+        "raw inner() writes; builder defaults")
 TRUSTED = ["float Display (core::fmt) is an oracle: the text the implementation prints is passed to the model in the case; its assumed "
            "contract ([-]digits[.digits] for finite values, reads back within 2 ulp) is checked on every sampled value",
            "integer printing (itoa / core::fmt) is modelled by Date.fmt_int and exercised by correspondence",
@@ -382,6 +387,14 @@ def run(ctx, widen=False):
             else:
                 check_log(ctx, "illformed-depth", c, o, c.split("\t")[2])
 
+    # >>> a_wr (wave 4): state queries from the document, floats over the whole readable domain + precision variants,
+    # typed read-back (bool / dates / iso dates / unknown tokens), escape buffer histories, arbitrary sessions
+    # (calls + write_tape + inner()); see props/C15_extra.py and audit/C15.md
+    if not widen:
+        from props import C15_extra
+        C15_extra.run(ctx, _fail)
+    # <<< a_wr
+
 
 def search(ctx):
     ctx.rng = random.Random(ctx.seed + 1)
@@ -390,6 +403,6 @@ def search(ctx):
 
 CLAIM = {
     "text": "Coq theorems over a faithful Gallina model of text/writer.rs (9-state machine with the WRITE_STATE_NEXT table regenerated from the source, depth stack, mixed mode, indent cache, escape(), write_binary forwarding; float Display as a Section-variable oracle): no call history ever panics, escape() is inverted by unescaping up to the documented trailing-newline trim and leaves no bare quote, depth()/error flags are the obvious counter over the call prefix, indentation is independent of the 16-byte cache; the model is tied to the code by differential execution of call lists (exact bytes and all four state queries after every call, release and debug) and of escape() per function, and the property's own oracles (parse(write(calls)) = described tape, quoted payloads survive, integers exact, floats within 2 ulp, misordered calls never panic) are evaluated on the implementation with the real parser",
-    "note": "The text parser is not modelled in this family: parse-back is an oracle on the implementation. Float Display is an assumed oracle whose contract is sampled. Trusted: Coq kernel, tools/gen_tables.py, extraction, the Rust harness.",
+    "note": "Wave 4: Props/C15_mixed.v puts start_mixed_mode / write_binary(MixedContainer) with scalar-valued key-operator-value triples into the proved call fragment (C15_mixed_calls_parse_back); container values in such lists stay known findings. The text parser is not modelled in this family: parse-back is an oracle on the implementation. Float Display is an assumed oracle whose contract is sampled. Trusted: Coq kernel, tools/gen_tables.py, extraction, the Rust harness.",
     "technique": "machine-checked proof in Coq over an executable model + model/implementation correspondence by extraction + parse-back oracles on the implementation",
 }
